@@ -51,9 +51,10 @@ def main():
             return 2
     groups = spec["groups"](tier, seed, ctx) if callable(spec["groups"]) else spec["groups"]
     results = []
+    if a.only:
+        groups = groups[:1]
+        groups[0].filters = [a.only]
     for g in groups:
-        if a.only:
-            g.filters = [a.only]
         log(f"[{pid}] group {g.name}: cfgs={g.cfgs + tier_cfgs} features={g.features} jobs={g.jobs}")
         r = R.run_group(mdir, g, tier_cfgs)
         r["_group"] = g
@@ -91,7 +92,7 @@ def main():
             for h, row in to_replay[cap:]:
                 inconclusive.append(f"{short(h)}: {row['new_keys']} failed but replay budget ({cap}) exhausted; not replayed")
             to_replay = to_replay[:cap]
-        with ThreadPoolExecutor(max_workers=6) as ex:
+        with ThreadPoolExecutor(max_workers=3) as ex:
             futs = [ex.submit(extract_ce, pid, spec, mdir, gmap[row["group"]], h, row, tier_cfgs) for h, row in to_replay]
             recs = [f.result() for f in futs]
         native_stage(pid, mdir, recs, gmap, tier_cfgs, skip_native=a.no_replay)
@@ -145,9 +146,13 @@ def classify(pid, h, info, known):
         row["verdict"] = "inconclusive"
         row["why"] = "unwinding assertion failed (bound too small for this tree)"
         return row
+    if st == "Success" and name.endswith("_terminates"):
+        # #[kani::should_panic] harness: Success means every path ended in the expected controlled panic
+        return row
     if st == "Success":
-        bad = [c for c, s in info["covers"].items() if s != "Satisfied"]
-        if bad or not info["covers"]:
+        bad = [c for c, s in info["covers"].items() if s != "Satisfied" and c == "reached"]
+        row["observations"] = [c for c, s in info["covers"].items() if s == "Satisfied" and c != "reached"]
+        if bad or "reached" not in info["covers"]:
             row["verdict"] = "inconclusive"
             row["why"] = f"reachability cover not satisfied: {bad or 'none present'}"
         elif info["undetermined"]:
@@ -160,6 +165,19 @@ def classify(pid, h, info, known):
             k = R.fail_key(f)
             if k not in keys:
                 keys.append(k)
+        inc = [k for k in keys if any(k.startswith(x) for x in P.PROPS[pid].get("inconclusive_keys", []))]
+        if inc:
+            row["verdict"] = "inconclusive"
+            row["why"] = f"model limitation: {inc}"
+            return row
+        pref = P.PROPS[pid].get("key_prefix")
+        if pref:
+            # harness set shared with a sibling property: only this property's obligations (and real-code panics) count here
+            keys = [k for k in keys if k.startswith(pref + ".") or not re.match(r"^C\d\d", k)]
+            if not keys:
+                row["verdict"] = "pass"
+                row["why"] = "only sibling-property obligations failed"
+                return row
         for k in keys:
             kf = R.match_known(known, pid, h, k)
             if kf:
@@ -186,7 +204,7 @@ def extract_ce(pid, spec, mdir, g, h, row, tier_cfgs):
     tests, out = R.kani_counterexample(mdir, g, h, tier_cfgs)
     chosen = []
     for chk, name, src in tests:
-        k = R.fail_key({"description": chk, "category": "assertion", "function": ""})
+        k = R.fail_key({"description": chk.strip('"') if "concat" in chk else chk, "category": "assertion", "function": ""})
         for nk in keys:
             if k == nk or (not re.match(r"^C\d\d", nk) and nk.split("@")[0].split(":", 1)[-1] in chk):
                 chosen.append((chk, name, src))
